@@ -221,7 +221,6 @@ TWINS = [
     (['C17'], 'supp/name.py', r"sorted\(set\(allnames\), key=lambda n: n\.location\)", "sorted(set(allnames))"),
     (['C06'], 'supp/name.py', r"        attrs = \{\}\n        for b in reversed\(self\.bases\):\n            attrs\.update\(b\._attrs\)\n        attrs\.update\(self\._cls_attrs\)\n        return attrs",
      "        attrs = dict(self._cls_attrs)\n        for b in self.bases:\n            for k, v in b._attrs.items():\n                attrs.setdefault(k, v)\n        return attrs"),
-    (['C07'], 'supp/project.py', r"        path = self\.get_path\(\)\n\n        if root:", "        path = sys.path + self.sources\n\n        if root:"),
     (['C13', 'C11'], 'supp/util.py', r"    return node\.lineno, node\.col_offset\n\n\nSOURCE_MARK", "    return (node.lineno, node.col_offset)\n\n\nSOURCE_MARK"),
 ]
 
